@@ -14,31 +14,31 @@ PROFILES: dict[str, dict[str, Any]] = {
     "c01": {"cp": 5, "group": 4, "forever": 2, "raise": 1.2, "cleanup": 2.5, "scope": 1.5,
             "spawn": 2, "cancel": 2, "catch_then": 0.7, "wait": 1, "sleep": 0.7,
             "await_handle": 1, "cancel_task": 0.8, "shield": 0.4, "return": 0.5,
-            "start_children": 0.25, "agents": (0, 3), "depth": 3, "max_tasks": 9},  # fmt: skip
+            "catch_mix": 0.4, "start_children": 0.25, "agents": (0, 3), "depth": 3, "max_tasks": 9},  # fmt: skip
     "c02": {"cp": 5, "group": 4, "forever": 1.5, "raise": 3.5, "cleanup": 3, "scope": 1.5,
             "spawn": 1.5, "cancel": 1.5, "catch_then": 0.5, "wait": 0.7, "sleep": 0.5,
             "await_handle": 0.5, "cancel_task": 0.8, "shield": 0.3, "return": 0.5,
-            "start_children": 0.35, "agents": (0, 3), "depth": 3, "max_tasks": 9},  # fmt: skip
+            "catch_mix": 0.5, "start_children": 0.35, "agents": (0, 3), "depth": 3, "max_tasks": 9},  # fmt: skip
     "c03": {"cp": 5, "group": 2.5, "forever": 4, "raise": 0.6, "cleanup": 2.5, "scope": 4,
             "spawn": 1, "cancel": 3.5, "catch_then": 2.5, "wait": 3, "sleep": 2,
             "await_handle": 1.5, "cancel_task": 1, "shield": 1.5, "return": 0.3,
-            "start_children": 0.15, "agents": (1, 4), "depth": 4, "max_tasks": 7},  # fmt: skip
+            "catch_mix": 0.4, "start_children": 0.15, "agents": (1, 4), "depth": 4, "max_tasks": 7},  # fmt: skip
     "c04": {"cp": 5, "group": 2, "forever": 3, "raise": 1, "cleanup": 2, "scope": 6,
             "spawn": 0.7, "cancel": 4, "catch_then": 1.5, "wait": 2, "sleep": 1,
             "await_handle": 0.7, "cancel_task": 0.8, "shield": 3, "return": 0.3,
-            "start_children": 0.1, "agents": (1, 4), "depth": 5, "max_tasks": 6},  # fmt: skip
+            "catch_mix": 1.2, "start_children": 0.1, "agents": (1, 4), "depth": 5, "max_tasks": 6},  # fmt: skip
     "c05": {"cp": 6, "group": 2.5, "forever": 2.5, "raise": 1, "cleanup": 2, "scope": 6,
             "spawn": 0.7, "cancel": 4, "catch_then": 2, "wait": 1.5, "sleep": 1.5,
             "await_handle": 0.5, "cancel_task": 0.6, "shield": 1.5, "return": 0.3,
-            "start_children": 0.1, "agents": (1, 4), "depth": 4, "max_tasks": 6,
+            "catch_mix": 0.6, "start_children": 0.1, "agents": (1, 4), "depth": 4, "max_tasks": 6,
             "deadline_p": 0.35},  # fmt: skip
     "c07": {"cp": 5, "group": 4, "forever": 2, "raise": 2, "cleanup": 3, "scope": 2,
             "spawn": 1, "cancel": 2.5, "catch_then": 0.7, "wait": 1, "sleep": 0.5,
             "await_handle": 0.7, "cancel_task": 1, "shield": 0.4, "return": 0.7,
-            "start_children": 0.8, "agents": (0, 3), "depth": 3, "max_tasks": 8},  # fmt: skip
+            "catch_mix": 0.3, "start_children": 0.8, "agents": (0, 3), "depth": 3, "max_tasks": 8},  # fmt: skip
 }
 OPS = ["cp", "group", "forever", "raise", "cleanup", "scope", "spawn", "cancel", "catch_then",
-       "wait", "sleep", "await_handle", "cancel_task", "shield", "return"]  # fmt: skip
+       "wait", "sleep", "await_handle", "cancel_task", "shield", "return", "catch_mix"]  # fmt: skip
 
 
 class Gen:
@@ -66,7 +66,7 @@ class Gen:
         for i in range(n):
             allowed = list(OPS)
             if depth >= self.w["depth"]:
-                for o in ("group", "scope", "cleanup", "catch_then"):
+                for o in ("group", "scope", "cleanup", "catch_then", "catch_mix"):
                     allowed.remove(o)
 
             if self.ntask >= self.w["max_tasks"]:
@@ -155,6 +155,9 @@ class Gen:
                             "boom" if rng.random() < 0.3 else "reraise"])  # fmt: skip
             elif k == "catch_then":
                 ops.append(["catch_then", self.body(depth + 1, groups), self.body(depth + 1, groups)])
+            elif k == "catch_mix":
+                self.nboom += 1
+                ops.append(["catch_mix", self.body(depth + 1, groups), self.nboom])
             elif k == "await_handle":
                 ops.append(["await_handle", rng.choice(self.tids), rng.choice(["wait", "await"])])
 
